@@ -138,7 +138,7 @@ def oracle(run, deep):
     binding_names(run)
     structural_keys(run)
     g = ec.Gen(run.rng, tick_p=0.0, hist={})
-    n = run.n(300, 4000) * (3 if deep else 1)
+    n = run.n(200, 4000) * (3 if deep else 1)
     for _ in range(n):
         kind = run.rng.choice(["int", "list", "dict", "none"])
         data = ec.gen_data(run.rng, kind)
@@ -228,7 +228,7 @@ def attribution_is_mapped_access(run):
     settings = [("standard", std, yaql.create_context), ("legacy", leg, yaql.legacy.create_context), ("host-dot", std, host),
                 ("standard-raw", yaql.YaqlFactory().create({"yaql.convertInputData": False}), yaql.create_context)]
     keys = ["name", "nick", "tags", "t", "u"]
-    for round_ in range(run.n(40, 400)):
+    for round_ in range(run.n(30, 400)):
         people = []
         for _ in range(rng.randrange(0, 4)):
             d = {}
@@ -288,7 +288,7 @@ def composite_host_contexts(run):
     rng = run.rng
     eng = ec.engine()
     names = ["a", "b", "c", "limit"]
-    for _ in range(run.n(60, 600)):
+    for _ in range(run.n(40, 600)):
         n = rng.randrange(1, 4)
         mk = lambda: {k: rng.choice([None, 0, 1, 3, 10, [7]]) for k in names if rng.random() < 0.45}
         A, B = [mk() for _ in range(n)], [mk() for _ in range(n)]
@@ -498,7 +498,7 @@ def keyword_lambda_equivalence(run):
                                      and not isinstance(q.value_type, yaqltypes.HiddenParameterType)], key=lambda q: q.position)
                     if len(params) < 2 or not any(isinstance(q.value_type, yaqltypes.Lambda) for q in params[1:]):
                         continue
-                    for _ in range(run.n(6, 30)):
+                    for _ in range(run.n(4, 30)):
                         recv = rng.choice(RECEIVERS)
                         vals = [rng.choice(LAMBDA_BODIES) if isinstance(q.value_type, yaqltypes.Lambda) else rng.choice(PLAIN_ARGS)
                                 for q in params[1:]]
